@@ -135,3 +135,24 @@ func (s *Sim) Replay(closed *block.Block, warm bool) Replayed {
 	r.Changes = bs.GetChangeCount()
 	return r
 }
+
+// ShadowAtOpen returns a long-lived scratch copy of a block that has no transactions yet. Unlike Fork, whose state is
+// layered on the open block's own node DB (from which the block deletes replaced nodes as it goes on), the shadow is
+// layered on the closed parent's state, which no longer changes; it can therefore be kept and executed side by side with
+// the block for the whole life of the block.
+func (b *Block) ShadowAtOpen() *Block {
+	o := b.B
+	if len(o.Txns) != 0 {
+		panic("ShadowAtOpen on a block that already has transactions")
+	}
+	prev := o.PrevBlock
+	nb := block.NewBlock(b.S.Chain.GetKey(), o.Round)
+	nb.MinerID, nb.CreationDate, nb.PrevHash, nb.PrevBlock = o.MinerID, o.CreationDate, o.PrevHash, o.PrevBlock
+	nb.SetRoundRandomSeed(o.GetRoundRandomSeed())
+	nb.Hash = o.Hash + "-shadow"
+	db := util.NewLevelNodeDB(util.NewMemoryNodeDB(), prev.ClientState.GetNodeDB(), false)
+	nb.SetClientState(util.NewMerklePatriciaTrie(db, util.Sequence(o.Round), prev.ClientState.GetRoot(), statecache.NewEmpty()))
+	f := &Block{B: nb, S: b.S}
+	f.cache = cacheHandle{bc: statecache.NewBlockCache(statecache.NewStateCache(), statecache.Block{Round: o.Round, Hash: nb.Hash, PrevHash: o.PrevHash})}
+	return f
+}
